@@ -69,18 +69,31 @@ pub fn compare(exp: &Exp, d: &Delta, home: u32, sem: bool, what: &str, cx: &mut 
     let in_freed = |addr: usize| freed.iter().any(|(a, sz)| addr >= *a && addr < *a + (*sz).max(1));
     let got: Vec<&AOp> = d.atom.iter().filter(|a| a.is_rmw() && !in_freed(a.addr)).collect();
     let exp_rmw: Vec<(usize, usize, Rmw, usize)> = exp.rmw.iter().filter(|e| !in_freed(e.0)).cloned().collect();
+    let hit = |g: &&AOp, e: &(usize, usize, Rmw, usize)| -> bool {
+        let inside = g.addr >= e.0 && g.addr < e.0 + e.1.max(1);
+        let want_delta = match e.2 {
+            Rmw::Add => e.3 as isize,
+            Rmw::Sub => -(e.3 as isize),
+            _ => return false,
+        };
+        inside && g.delta() == want_delta
+    };
+    // Every observed change must be one the model expects, in order. An expected change that was
+    // not observed through the hooks is not charged here: the value the count ends up with is
+    // compared after every step anyway (COUNT), and a write the shim cannot see (get_mut, as_ptr)
+    // is not by itself a change of behaviour.
     let matches = |want: &[(usize, usize, Rmw, usize)]| -> bool {
-        got.len() == want.len()
-            && got.iter().zip(want.iter()).all(|(g, e)| {
-                // what is compared is the change of the value, not the instruction used for it
-                let inside = g.addr >= e.0 && g.addr < e.0 + e.1.max(1);
-                let want_delta = match e.2 {
-                    Rmw::Add => e.3 as isize,
-                    Rmw::Sub => -(e.3 as isize),
-                    _ => return false,
-                };
-                inside && g.delta() == want_delta
-            })
+        let mut wi = 0;
+        got.iter().all(|g| {
+            while wi < want.len() {
+                let e = &want[wi];
+                wi += 1;
+                if hit(g, e) {
+                    return true;
+                }
+            }
+            false
+        })
     };
     let mut ok = matches(&exp_rmw);
     if !ok && !exp.rmw_optional.is_empty() {
